@@ -48,49 +48,12 @@ func raceCheck(r *evid.Run, reqs []wproto.Req) {
 	wg.Wait()
 	outs := pool.Stderr()
 	pool.Close()
-	reFn := regexp.MustCompile(`(?m)^  github\.com/ddddddO/gtree[./](\S+)\(`)
 	seen := map[string]bool{}
 	for _, out := range outs {
-		for _, rep := range strings.Split(out, "==================") {
-			if !strings.Contains(rep, "WARNING: DATA RACE") {
-				continue
-			}
-			// the first gtree frame of each of the two conflicting accesses
-			parts := strings.Split(rep, "\n\n")
-			var sites []string
-			for _, part := range parts {
-				if !(strings.Contains(part, "Write at") || strings.Contains(part, "Read at") || strings.Contains(part, "Previous write") || strings.Contains(part, "Previous read")) {
-					continue
-				}
-				// the access itself (first frame) must be in gtree: a race between two harness accesses
-				// (e.g. a callback arriving after a cancelled call returned) is not gtree's
-				lines := strings.Split(part, "\n")
-				first := ""
-				for i, l := range lines {
-					if (strings.Contains(l, "rite at 0x") || strings.Contains(l, "ead at 0x")) && i+1 < len(lines) {
-						first = lines[i+1]
-						break
-					}
-				}
-				if !strings.HasPrefix(first, "  github.com/ddddddO/gtree") {
-					sites = nil
-					break
-				}
-				if m := reFn.FindStringSubmatch(part); m != nil {
-					sites = append(sites, m[1])
-				}
-			}
-			if len(sites) == 0 {
-				continue // no gtree frame: not ours
-			}
-			sig := "data-race:" + strings.Join(sites, "<>")
+		for _, sig := range raceSignatures(out) {
 			if !seen[sig] {
 				seen[sig] = true
-				first := rep
-				if len(first) > 1500 {
-					first = first[:1500]
-				}
-				r.Mismatch(sig, "Go race detector: "+strings.ReplaceAll(first, "\n", " | "), map[string]any{"report": rep})
+				r.Mismatch(sig, "Go race detector: "+raceExcerpt(out, sig), map[string]any{"stderr": firstN(out, 4000)})
 			}
 		}
 	}
@@ -147,4 +110,57 @@ func raceRequests(thorough bool) []wproto.Req {
 		}
 	}
 	return reqs
+}
+
+var reRaceFn = regexp.MustCompile(`(?m)^  github\.com/ddddddO/gtree[./](\S+)\(`)
+
+// raceSignatures extracts, from a process's stderr, one signature per data-race report whose two
+// conflicting accesses are both in gtree (first frame of each access).
+func raceSignatures(out string) []string {
+	var sigs []string
+	for _, rep := range strings.Split(out, "==================") {
+		if !strings.Contains(rep, "WARNING: DATA RACE") {
+			continue
+		}
+		var sites []string
+		for _, part := range strings.Split(rep, "\n\n") {
+			if !(strings.Contains(part, "Write at") || strings.Contains(part, "Read at") || strings.Contains(part, "Previous write") || strings.Contains(part, "Previous read")) {
+				continue
+			}
+			lines := strings.Split(part, "\n")
+			first := ""
+			for i, l := range lines {
+				if (strings.Contains(l, "rite at 0x") || strings.Contains(l, "ead at 0x")) && i+1 < len(lines) {
+					first = lines[i+1]
+					break
+				}
+			}
+			if !strings.HasPrefix(first, "  github.com/ddddddO/gtree") {
+				sites = nil
+				break // an access in the harness: not gtree's race
+			}
+			if m := reRaceFn.FindStringSubmatch(part); m != nil {
+				sites = append(sites, m[1])
+			}
+		}
+		if len(sites) > 0 {
+			sigs = append(sigs, "data-race:"+strings.Join(sites, "<>"))
+		}
+	}
+	return sigs
+}
+
+func raceExcerpt(out, sig string) string {
+	i := strings.Index(out, "WARNING: DATA RACE")
+	if i < 0 {
+		return sig
+	}
+	return strings.ReplaceAll(firstN(out[i:], 1200), "\n", " | ")
+}
+
+func firstN(s string, n int) string {
+	if len(s) > n {
+		return s[:n]
+	}
+	return s
 }
